@@ -26,7 +26,7 @@ V_CONTRACT
 int tell_system_pubsub_msg(const m_mod_t *recipient, m_ctx_t *c, m_mod_t *sender, const char *topic)
 V_REQUIRES(c == g_ctx && topic != NULL && (sender == NULL || sender == g_mod))
 V_ASSIGNS(V_G_SYS; sender != NULL: g_mod->stats.sent_msgs)
-V_ENSURES(V_RET == 0 && g.sys_msgs == V_OLD(g.sys_msgs) + 1 && g.sys_sender == sender && g.sys_kind == v_topic_kind(topic))
+V_ENSURES(V_RET == 0 && g.sys_msgs == V_OLD(g.sys_msgs) + 1 && __CPROVER_pointer_equals(g.sys_sender, sender) && g.sys_kind == v_topic_kind(topic))
 V_ENSURES(g.sys_started == V_OLD(g.sys_started) + (v_topic_kind(topic) == V_T_MOD_STARTED ? 1 : 0) && g.sys_stopped == V_OLD(g.sys_stopped) + (v_topic_kind(topic) == V_T_MOD_STOPPED ? 1 : 0))
 V_ENSURES(g.sys_ctx_started == V_OLD(g.sys_ctx_started) + (v_topic_kind(topic) == V_T_CTX_STARTED ? 1 : 0) && g.sys_ctx_stopped == V_OLD(g.sys_ctx_stopped) + (v_topic_kind(topic) == V_T_CTX_STOPPED ? 1 : 0)
           && g.sys_tick == V_OLD(g.sys_tick) + (v_topic_kind(topic) == V_T_TICK ? 1 : 0) && g.sys_pill == V_OLD(g.sys_pill) + (v_topic_kind(topic) == V_T_PILL ? 1 : 0))
@@ -72,7 +72,7 @@ V_ENSURES((V_RET == 0 || V_RET == -1 || V_RET == -ENOENT) && (V_RET == -ENOENT) 
 /* a refusal (-1) comes only from a start / evaluation callback that exists and returned false */
 V_ENSURES(V_IMP(V_RET == -1, (req_hook == MOD_START && g_mod->hook.on_start != NULL) || (req_hook == MOD_EVAL && g_mod->hook.on_eval != NULL)))
 /* the module is pinned while user code runs */
-V_ENSURES(g.ref_calls == V_OLD(g.ref_calls) + 1 && g.ref_arg == (void *)g_mod && g.unref_calls == V_OLD(g.unref_calls) + 1 && g.unref_arg == (void *)g_mod)   /*@C04.module-pinned-during-callback*/
+V_ENSURES(g.ref_calls == V_OLD(g.ref_calls) + 1 && __CPROVER_pointer_equals(g.ref_arg, (void *)g_mod) && g.unref_calls == V_OLD(g.unref_calls) + 1 && __CPROVER_pointer_equals(g.unref_arg, (void *)g_mod))   /*@C04.module-pinned-during-callback*/
 V_ENSURES(g.on_start_calls == V_OLD(g.on_start_calls) + ((req_hook == MOD_START && g_mod->hook.on_start != NULL) ? 1 : 0)
           && g.on_stop_calls == V_OLD(g.on_stop_calls) + ((req_hook == MOD_STOP && g_mod->hook.on_stop != NULL) ? 1 : 0)
           && g.on_eval_calls == V_OLD(g.on_eval_calls) + ((req_hook == MOD_EVAL && g_mod->hook.on_eval != NULL) ? 1 : 0))
@@ -91,7 +91,7 @@ V_ENSURES(g.on_eval_calls == V_OLD(g.on_eval_calls) && g.ms_calls == V_OLD(g.ms_
 /* pause: RUNNING -> PAUSED, neither callback runs, sources kept, one MOD_STOPPED notification naming the module */
 V_ENSURES(V_IMP(g_ms_ret == 0 && !stopping, V_RET == 0 && g_mod->state == M_MOD_PAUSED && g.on_stop_calls == V_OLD(g.on_stop_calls) && g.on_start_calls == V_OLD(g.on_start_calls)
                 && g.reset_calls == V_OLD(g.reset_calls) && g.srcs_dropped == V_OLD(g.srcs_dropped)))                                        /*@C01.pause-runs-no-callback-keeps-sources*/
-V_ENSURES(V_IMP(g_ms_ret == 0 && !stopping, g.sys_stopped == V_OLD(g.sys_stopped) + 1 && g.sys_msgs == V_OLD(g.sys_msgs) + 1 && g.sys_sender == g_mod))  /*@C19.one-stopped-notification-per-pause*/
+V_ENSURES(V_IMP(g_ms_ret == 0 && !stopping, g.sys_stopped == V_OLD(g.sys_stopped) + 1 && g.sys_msgs == V_OLD(g.sys_msgs) + 1 && __CPROVER_pointer_equals(g.sys_sender, g_mod)))  /*@C19.one-stopped-notification-per-pause*/
 /* stop: sources dropped, module reset, stop callback exactly once (through optional_hook), then one MOD_STOPPED unless the
  * module was deregistered inside its stop callback (the nested deregistration emitted it) */
 V_ENSURES(V_IMP(g_ms_ret == 0 && stopping, g.srcs_dropped == V_OLD(g.srcs_dropped) + 1 && g.reset_calls == V_OLD(g.reset_calls) + 1
@@ -116,11 +116,11 @@ V_ENSURES(V_IMP(!starting, g.ms_calls == V_OLD(g.ms_calls) + 1 && g.ms_flag == A
 V_ENSURES(V_IMP(starting, g.ms_calls >= V_OLD(g.ms_calls) + (g_ips_ret == 0 ? 1 : 0)))
 /* resume: PAUSED -> RUNNING, neither callback, one MOD_STARTED */
 V_ENSURES(V_IMP(!starting && g_ms_ret == 0, V_RET == 0 && g_mod->state == M_MOD_RUNNING && g.on_start_calls == V_OLD(g.on_start_calls) && g.on_stop_calls == V_OLD(g.on_stop_calls)
-                && g.sys_started == V_OLD(g.sys_started) + 1 && g.sys_stopped == V_OLD(g.sys_stopped) && g.sys_sender == g_mod))             /*@C01.resume-runs-no-callback*/
+                && g.sys_started == V_OLD(g.sys_started) + 1 && g.sys_stopped == V_OLD(g.sys_stopped) && __CPROVER_pointer_equals(g.sys_sender, g_mod)))             /*@C01.resume-runs-no-callback*/
 /* start: start callback exactly once per entry into RUNNING; accepted => one MOD_STARTED; refused => stopped again through stop()
  * (one stop, hence one MOD_STOPPED, no MOD_STARTED); deregistered inside => nothing more */
 V_ENSURES(V_IMP(starting && g_ips_ret == 0 && g_ms_ret == 0, g.on_start_calls == V_OLD(g.on_start_calls) + (g_mod->hook.on_start != NULL ? 1 : 0)))                                                                                 /*@C01.start-callback-exactly-once*/
-V_ENSURES(V_IMP(starting && g_ips_ret == 0 && g_ms_ret == 0 && g.reset_calls == V_OLD(g.reset_calls) && V_RET == 0, g.sys_started == V_OLD(g.sys_started) + 1 && g.sys_sender == g_mod))  /*@C19.one-started-notification-per-start*/
+V_ENSURES(V_IMP(starting && g_ips_ret == 0 && g_ms_ret == 0 && g.reset_calls == V_OLD(g.reset_calls) && V_RET == 0, g.sys_started == V_OLD(g.sys_started) + 1 && __CPROVER_pointer_equals(g.sys_sender, g_mod)))  /*@C19.one-started-notification-per-start*/
 V_ENSURES(V_IMP(starting && g_ips_ret == 0 && g_ms_ret == 0 && g.reset_calls == V_OLD(g.reset_calls) + 1, V_RET == 0 && g.sys_started == V_OLD(g.sys_started)
                 && g.on_stop_calls == V_OLD(g.on_stop_calls) + (g_mod->hook.on_stop != NULL ? 1 : 0)))   /*@C01.refusing-start-callback-stops-the-module*/
 V_ENSURES(V_IMP(starting && g_ips_ret == 0 && g_ms_ret == 0 && V_RET == -ENOENT, g_mod->state == M_MOD_ZOMBIE && g.sys_started == V_OLD(g.sys_started)))
@@ -144,7 +144,7 @@ V_ENSURES(V_IMP(mod != NULL && g_modref_in != NULL && !(V_OLD(g_mod->state) & M_
                 && (g_mod->flags & M_MOD_PERSIST) && g_ctx->state == M_CTX_LOOPING, V_RET == -EPERM))                                        /*@C15.persistent-module-not-deregistered-while-looping*/
 V_ENSURES(V_IMP(mod != NULL && g_modref_in != NULL && !(V_OLD(g_mod->state) & M_MOD_ZOMBIE) && g_mod->ctx != g_mctx, V_RET == -EPERM))        /*@C14.foreign-thread-refused*/
 /* the module is pinned for the duration, the pin is dropped */
-V_ENSURES(V_IMP(V_G_DEREG_OLD(mod), g.ref_calls == V_OLD(g.ref_calls) + 1 && g.unref_calls == V_OLD(g.unref_calls) + 1 && g.unref_arg == (void *)g_mod))  /*@C04.module-pinned-during-deregistration*/
+V_ENSURES(V_IMP(V_G_DEREG_OLD(mod), g.ref_calls == V_OLD(g.ref_calls) + 1 && g.unref_calls == V_OLD(g.unref_calls) + 1 && __CPROVER_pointer_equals(g.unref_arg, (void *)g_mod)))  /*@C04.module-pinned-during-deregistration*/
 V_ENSURES(V_IMP(V_G_DEREG_OLD(mod) && g_maprm_ret != 0, V_RET == g_maprm_ret && g_mod->state == V_OLD(g_mod->state) && g.reset_calls == V_OLD(g.reset_calls)))
 /* any state -> ZOMBIE (final), stopped through stop(): stop callback exactly once, one MOD_STOPPED notification */
 V_ENSURES(V_IMP(V_G_DEREG_OLD(mod) && g_maprm_ret == 0, g_mod->state == M_MOD_ZOMBIE && V_INV
@@ -230,13 +230,13 @@ V_CONTRACT
 int m_mod_src_deregister_tmr(m_mod_t *mod, const m_src_tmr_t *its)
 V_REQUIRES(mod == g_mod && its != NULL)
 V_ASSIGNS(g.deregtmr_calls, g.deregtmr_arg, g.deregtmr_ns, g_mod->tb.tokens)
-V_ENSURES(g.deregtmr_calls == V_OLD(g.deregtmr_calls) + 1 && g.deregtmr_arg == its && g.deregtmr_ns == its->ns && g_mod->tb.tokens <= V_OLD(g_mod->tb.tokens))
+V_ENSURES(g.deregtmr_calls == V_OLD(g.deregtmr_calls) + 1 && __CPROVER_pointer_equals(g.deregtmr_arg, its) && g.deregtmr_ns == its->ns && g_mod->tb.tokens <= V_OLD(g_mod->tb.tokens))
 ;
 V_CONTRACT
 int m_mod_src_register_tmr(m_mod_t *mod, const m_src_tmr_t *its, m_src_flags flags, const void *userptr)
 V_REQUIRES(mod == g_mod && its != NULL)
 V_ASSIGNS(g.regtmr_calls, g.regtmr_arg, g.regtmr_flags, g.regtmr_up, g.regtmr_ns, g_mod->tb.tokens)
-V_ENSURES(V_RET == g_regtmr_ret && g.regtmr_calls == V_OLD(g.regtmr_calls) + 1 && g.regtmr_arg == its && g.regtmr_flags == flags && g.regtmr_up == userptr && g.regtmr_ns == its->ns
+V_ENSURES(V_RET == g_regtmr_ret && g.regtmr_calls == V_OLD(g.regtmr_calls) + 1 && __CPROVER_pointer_equals(g.regtmr_arg, its) && g.regtmr_flags == flags && __CPROVER_pointer_equals(g.regtmr_up, userptr) && g.regtmr_ns == its->ns
           && g_mod->tb.tokens <= V_OLD(g_mod->tb.tokens))
 ;
 #ifdef V_TB_UNIT
@@ -248,7 +248,7 @@ V_ASSIGNS(V_G_MOD(mod) && rate <= BILLION: g.deregtmr_calls, g.deregtmr_arg, g.d
 V_ENSURES(V_IMP(!(mod != NULL && !(V_OLD(g_mod->state) & M_MOD_ZOMBIE) && g_mod->ctx == g_mctx) || rate > BILLION, V_RET < 0))                  /*@C18.bad-rate-or-refused-call-changes-nothing*/
 /* a previously configured refill timer is removed (looked up by its old period) before anything is overwritten */
 V_ENSURES(V_IMP(V_G_MOD(mod) && rate <= BILLION, g.deregtmr_calls == V_OLD(g.deregtmr_calls) + (V_OLD(g_mod->tb.timer.ns) != 0 ? 1 : 0)
-                && V_IMP(V_OLD(g_mod->tb.timer.ns) != 0, g.deregtmr_arg == &g_mod->tb.timer && g.deregtmr_ns == V_OLD(g_mod->tb.timer.ns))))                    /*@C18.old-refill-timer-removed-on-reconfiguration*/
+                && V_IMP(V_OLD(g_mod->tb.timer.ns) != 0, __CPROVER_pointer_equals(g.deregtmr_arg, &g_mod->tb.timer) && g.deregtmr_ns == V_OLD(g_mod->tb.timer.ns))))                    /*@C18.old-refill-timer-removed-on-reconfiguration*/
 /* rate 0 removes the limit */
 V_ENSURES(V_IMP(V_G_MOD(mod) && rate == 0, V_RET == 0 && g_mod->tb.rate == 0 && g_mod->tb.tokens == UINT64_MAX && g_mod->tb.burst == UINT64_MAX && g_mod->tb.timer.ns == 0
                 && g.regtmr_calls == V_OLD(g.regtmr_calls)))                                                                               /*@C18.rate-zero-removes-the-limit*/
@@ -256,7 +256,7 @@ V_ENSURES(V_IMP(V_G_MOD(mod) && rate == 0, V_RET == 0 && g_mod->tb.rate == 0 && 
  * restated here: two symbolic dividers in one formula did not finish), delivered through an internal high-priority timer keyed by the bucket */
 V_ENSURES(V_IMP(V_G_MOD(mod) && rate > 0 && rate <= BILLION, g_mod->tb.rate == (uint16_t)rate && g_mod->tb.burst == burst && g_mod->tb.tokens <= burst
                 && g_mod->tb.timer.ns >= 1 && g_mod->tb.timer.ns <= BILLION && g_mod->tb.timer.clock_id == CLOCK_MONOTONIC
-                && g.regtmr_calls == V_OLD(g.regtmr_calls) + 1 && g.regtmr_arg == &g_mod->tb.timer && g.regtmr_up == (const void *)&g_mod->tb
-                && (g.regtmr_flags & M_SRC_INTERNAL) && (g.regtmr_flags & M_SRC_PRIO_HIGH) && g.regtmr_ns == g_mod->tb.timer.ns && V_RET == g_regtmr_ret))  /*@C18.bucket-armed-with-burst-and-refill-period*/
+                && g.regtmr_calls == V_OLD(g.regtmr_calls) + 1 && __CPROVER_pointer_equals(g.regtmr_arg, &g_mod->tb.timer) && __CPROVER_pointer_equals(g.regtmr_up, (const void *)&g_mod->tb
+               ) && (g.regtmr_flags & M_SRC_INTERNAL) && (g.regtmr_flags & M_SRC_PRIO_HIGH) && g.regtmr_ns == g_mod->tb.timer.ns && V_RET == g_regtmr_ret))  /*@C18.bucket-armed-with-burst-and-refill-period*/
 ;
 #endif
